@@ -109,13 +109,15 @@ def bounded(params):
             for dtype in ("uint8", "int32") if tier != "quick" else ("uint8",):
                 ref = np.array(a, dtype=dtype).reshape(shape)
                 pred = np.array(b, dtype=dtype).reshape(shape)
-                cases = [("sel", 1, 1), ("sel", 1, [1, 2]), ("sel", 2, [2]), ("sel", 1, 3), ("nosel", None, None)]
+                cases = [("sel", 1, 1), ("sel", 1, [1, 2]), ("sel", 2, [2]), ("sel", 1, 3), ("nosel", None, None),
+                         # labels that do not occur because they do not fit the array's dtype select nothing
+                         ("sel", 1, 257), ("sel", 1, [2, 257]), ("sel", 2, -255)]
                 for kind in ("DSC", "IOU", "RVD"):
                     for mode, r, p in cases:
                         evals += 1
                         if mode == "sel":
                             X = SM.vox(ref == r)
-                            Y = SM.vox(np.isin(pred, p if isinstance(p, list) else [p]))
+                            Y = SM.vox(np.isin(pred.astype(np.int64), p if isinstance(p, list) else [p]))
                             rr, pp = ref, pred
                         else:
                             rr, pp = (ref != 0), (pred != 0)
